@@ -34,6 +34,8 @@ type instVariant struct {
 	stub         bool
 	resets       bool
 	unroll       bool
+	source       string // corpus source file relative to /verif/corpus (default m/ifaces.go)
+	srcPkg       string // its package name
 }
 
 var matryerVariants = []instVariant{
@@ -55,25 +57,44 @@ func cleanEnv(extra ...string) []string {
 	return append(append(env, "GOPROXY=off"), extra...)
 }
 
-// generateInstances builds mockery from the working tree and generates the mocks of the corpus for
-// the given variants. It returns the scratch directory (to be removed by the caller) and the corpus root.
-func generateInstances(variants []instVariant) (scratch, root string, err error) {
+// instEnv is one scratch directory with a mockery binary built from the working tree.
+type instEnv struct {
+	scratch, bin string
+	n            int
+}
+
+func newInstEnv() (*instEnv, error) {
 	base := os.Getenv("VERIF_SCRATCH")
 	if base == "" {
 		base = "/var/tmp"
 	}
-	scratch, err = os.MkdirTemp(base, "govc-inst-")
+	scratch, err := os.MkdirTemp(base, "govc-inst-")
 	if err != nil {
-		return "", "", err
+		return nil, err
 	}
-	bin := filepath.Join(scratch, "mockery")
-	cmd := exec.Command("go", "build", "-o", bin, ".")
+	e := &instEnv{scratch: scratch, bin: filepath.Join(scratch, "mockery")}
+	cmd := exec.Command("go", "build", "-o", e.bin, ".")
 	cmd.Dir = repoDir()
 	cmd.Env = cleanEnv()
-	if out, e := cmd.CombinedOutput(); e != nil {
-		return scratch, "", fmt.Errorf("building mockery from the working tree: %v\n%s", e, out)
+	if out, err := cmd.CombinedOutput(); err != nil {
+		return e, fmt.Errorf("building mockery from the working tree: %v\n%s", err, out)
 	}
-	root = filepath.Join(scratch, "corpus")
+	return e, nil
+}
+
+func (e *instEnv) close() {
+	if os.Getenv("VERIF_KEEP_SCRATCH") != "" {
+		fmt.Println("scratch kept:", e.scratch)
+		return
+	}
+	os.RemoveAll(e.scratch)
+}
+
+// generate writes a scratch corpus module with one package per variant (the corpus source with only its
+// package clause renamed), runs mockery over it and returns the module root.
+func (e *instEnv) generate(variants []instVariant) (root string, err error) {
+	e.n++
+	root = filepath.Join(e.scratch, fmt.Sprintf("corpus%d", e.n))
 	os.MkdirAll(root, 0o755)
 	src := filepath.Join(verifDir, "corpus")
 	gomod, _ := os.ReadFile(filepath.Join(src, "go.mod"))
@@ -88,18 +109,22 @@ func generateInstances(variants []instVariant) (scratch, root string, err error)
 		}
 	}
 	os.WriteFile(filepath.Join(root, "go.mod"), gomod, 0o644)
-	ifaces, e := os.ReadFile(filepath.Join(src, "m", "ifaces.go"))
-	if e != nil {
-		return scratch, root, e
-	}
 	var y strings.Builder
 	y.WriteString("formatter: goimports\nforce-file-write: true\ndir: \"{{.InterfaceDir}}\"\nfilename: \"mocks_gen.go\"\npkgname: \"{{.SrcPackageName}}\"\npackages:\n")
 	for _, v := range variants {
+		source, srcPkg := v.source, v.srcPkg
+		if source == "" {
+			source, srcPkg = "m/ifaces.go", "m"
+		}
+		text, e2 := os.ReadFile(filepath.Join(src, source))
+		if e2 != nil {
+			return root, e2
+		}
 		dir := filepath.Join(root, v.pkg)
 		os.MkdirAll(dir, 0o755)
 		// the corpus source, with only its package clause renamed (mechanical)
-		text := strings.Replace(string(ifaces), "\npackage m\n", "\npackage "+v.pkg+"\n", 1)
-		os.WriteFile(filepath.Join(dir, "ifaces.go"), []byte(text), 0o644)
+		renamed := strings.Replace(string(text), "\npackage "+srcPkg+"\n", "\npackage "+v.pkg+"\n", 1)
+		os.WriteFile(filepath.Join(dir, "ifaces.go"), []byte(renamed), 0o644)
 		prefix := "Moq"
 		if v.template == "testify" {
 			prefix = "Mock"
@@ -107,13 +132,26 @@ func generateInstances(variants []instVariant) (scratch, root string, err error)
 		fmt.Fprintf(&y, "  %s/%s:\n    config:\n      all: true\n      template: %s\n      structname: \"%s{{.InterfaceName}}\"\n      template-data: %s\n", corpusModule, v.pkg, v.template, prefix, v.templateData)
 	}
 	os.WriteFile(filepath.Join(root, ".mockery.yml"), []byte(y.String()), 0o644)
-	run := exec.Command(bin, "--config", filepath.Join(root, ".mockery.yml"))
+	run := exec.Command(e.bin, "--config", filepath.Join(root, ".mockery.yml"))
 	run.Dir = root
 	run.Env = cleanEnv("GOFLAGS=-mod=mod", "GOWORK=off")
-	if out, e := run.CombinedOutput(); e != nil {
-		return scratch, root, fmt.Errorf("mockery failed on the corpus: %v\n%s", e, tail(string(out), 2000))
+	if out, e2 := run.CombinedOutput(); e2 != nil {
+		return root, fmt.Errorf("mockery failed on the corpus: %v\n%s", e2, tail(string(out), 2000))
 	}
-	return scratch, root, nil
+	return root, nil
+}
+
+// generateInstances: one environment, one generation (used by the instance-wise checks).
+func generateInstances(variants []instVariant) (scratch, root string, err error) {
+	e, err := newInstEnv()
+	if e == nil {
+		return "", "", err
+	}
+	if err != nil {
+		return e.scratch, "", err
+	}
+	root, err = e.generate(variants)
+	return e.scratch, root, err
 }
 
 // repoModuleVersion reads the version of a dependency from /repo's go.mod.
@@ -731,4 +769,68 @@ func testifyContracts(p *packages.Package, v instVariant) (string, []structFact)
 		}
 	}
 	return b.String(), facts
+}
+
+// ---- C01 stand-in: the generated files of the corpus are valid Go (bounded: the corpus) ----
+
+type badShape struct {
+	file, template, templateData, what string
+}
+
+// shapes for which a built-in template is known to produce a file that does not compile (known findings of C01)
+var badShapes = []badShape{
+	{"param_named_mock.go", "matryer", "{skip-ensure: true}", "a parameter named mock collides with the receiver of the matryer template"},
+	{"method_named_mock.go", "testify", "{unroll-variadic: true}", "a method named Mock collides with the embedded testify mock.Mock field"},
+	{"param_named_returnfunc.go", "testify", "{unroll-variadic: true}", "a parameter named returnFunc is shadowed by a local of the testify template"},
+	{"comparable_constraint.go", "matryer", "{skip-ensure: false}", "the matryer ensure line instantiates the mock with the constraint comparable itself"},
+}
+
+// compilePhase: bounded stand-in for "every generated file compiles in its destination package":
+// the mocks of the corpus, generated from the working tree with both templates, type-check.
+// Not a proof and not counted among the obligations; known-bad shapes are reported as known findings.
+func compilePhase(cr *checkResult, _ *symex.World) {
+	env, err := newInstEnv()
+	if env != nil {
+		defer env.close()
+	}
+	if err != nil {
+		cr.undecided = append(cr.undecided, fmt.Sprintf("UNDECIDED property=%s obligation=build reason=%s", cr.prop, strings.ReplaceAll(err.Error(), "\n", " | ")))
+		return
+	}
+	known := loadKnownFindings()
+	type outcome struct {
+		Name, Result string
+	}
+	var outs []outcome
+	try := func(name, input string, vs []instVariant) {
+		root, err := env.generate(vs)
+		if err == nil {
+			_, err = loadTypes(root, vs)
+		}
+		if err == nil {
+			outs = append(outs, outcome{name, "compiles"})
+			return
+		}
+		if kf := matchKnown(known, cr.prop, name); kf != nil {
+			cr.known = append(cr.known, fmt.Sprintf("KNOWN-FINDING: property=%s %s: %s (witness: %s)", cr.prop, name, kf.Symptom, kf.Witness))
+			outs = append(outs, outcome{name, "known finding"})
+			return
+		}
+		dir := filepath.Join(outDir(), "replays", cr.prop)
+		os.MkdirAll(dir, 0o755)
+		path := filepath.Join(dir, sanitize(name)+".txt")
+		os.WriteFile(path, []byte(fmt.Sprintf("property: %s\nfailed obligation: %s (bounded stand-in: the generated mocks of the corpus are valid Go)\nfailing input: %s, mocked with 'all: true', formatter goimports\nreplay: build mockery from the tree, copy the file into a scratch module (stdlib only), run mockery with that configuration, then 'go build ./...'\noutput:\n%s\n", cr.prop, name, input, err.Error())), 0o644)
+		cr.violations = append(cr.violations, fmt.Sprintf("VIOLATION property=%s replay=%s obligation=%s", cr.prop, path, name))
+		outs = append(outs, outcome{name, "FAILS"})
+	}
+	try("instances/compile/corpus.matryer", "/verif/corpus/m/ifaces.go with template matryer", []instVariant{{pkg: "m", template: "matryer", templateData: "{skip-ensure: false, with-resets: true}"}})
+	try("instances/compile/corpus.testify", "/verif/corpus/m/ifaces.go with template testify", []instVariant{{pkg: "t", template: "testify", templateData: "{unroll-variadic: true}"}, {pkg: "tn", template: "testify", templateData: "{unroll-variadic: false}"}})
+	for _, b := range badShapes {
+		name := "instances/compile/bad." + strings.TrimSuffix(b.file, ".go") + "." + b.template
+		try(name, "/verif/corpus/bad/"+b.file+" with template "+b.template+" and template-data "+b.templateData, []instVariant{{pkg: "b", template: b.template, templateData: b.templateData, source: "bad/" + b.file, srcPkg: "bad"}})
+	}
+	cr.extra["bounded_standin_generated_files_compile"] = map[string]any{
+		"bound":   "the corpus /verif/corpus/m/ifaces.go (8 interfaces) x {matryer, testify unrolled, testify not unrolled} plus the known-bad shapes of /verif/corpus/bad; NOT a proof, not counted among the obligations",
+		"results": outs,
+	}
 }
